@@ -1,7 +1,8 @@
 """C15 - an interrupted or failing migration never loses rules or strands the budget.
 
 Fault enumeration.  For every budget shape and migrating command (tally up --migrate, tally init on a folder with a legacy
-CSV, tally update -y = folder-layout migration) a recording run under the child-process injector lists the file-system
+CSV, tally update -y = folder-layout migration, and `tally update` with a pseudo-terminal as stdin whose prompt is answered y, Enter, Y,
+n or Ctrl-D) a recording run under the child-process injector lists the file-system
 effect sequence E1..En.  Then EVERY injection point is visited on a fresh copy of the budget:
    crash before Ek for each k;  for each write (close-w / close-a) additionally the in-flight file 25/50/75/97% and fully written;
    OSError(EIO) raised from each single Ek with the process continuing.
@@ -12,7 +13,9 @@ same command un-faulted;  (c) it never classifies every transaction Unknown whil
 import hashlib
 import json
 import os
+import pty
 import shutil
+import subprocess
 import tempfile
 
 from vt import core, budget as B
@@ -21,7 +24,7 @@ SPEC = {
     'level': 'fault_enumeration',
     'shards': {'quick': 8, 'thorough': 16},
     'rule': ('budget shapes (old/new layout; settings with/without views; existing .bak; unreferenced merchants.rules; output dir with an old '
-             'report; .rules budget) x commands {up --migrate, init, update -y} x every effect index k of the recorded effect sequence x modes '
+             'report; .rules budget) x commands {up --migrate, init, update -y, and `update` at a pseudo-terminal answered y / Enter / Y / n / Ctrl-D} x every effect index k of the recorded effect sequence x modes '
              '{crash-before, crash with 25/50/75/97% of the in-flight file written, crash-full (writes only), error}. quick visits 4 (shape, command) pairs completely, thorough all of '
              'them. Non-trivial = injection at an effect that touches the rules, the settings or a directory move; distinct by (shape, command, k, mode)'),
     'exhaustive': {'quick': False, 'thorough': True},
@@ -76,6 +79,9 @@ COMMANDS = ['migrate', 'init', 'update']
 QUICK = [('csv-old', 'migrate'), ('csv-old-bak', 'init'), ('csv-old-output', 'update'), ('csv-new', 'migrate'), ('csv-old-commented-key', 'migrate'),
          ('rules-old-absdata', 'update'), ('csv-old', 'migrate', 'other-filesystem'), ('csv-old-empty-key', 'migrate'), ('csv-old-altsettings', 'migrate'),
          ('csv-old-commented-key', 'init'), ('rules-old-symlink-data', 'update'), ('csv-old-oddname', 'migrate'), ('csv-old-oddname-hash', 'migrate'), ('csv-old-oddname-punct', 'migrate'), ('csv-old-symlinked-config', 'migrate'), ('csv-old-manybaks', 'migrate'), ('csv-old-explicit-csv', 'migrate'), ('csv-old-explicit-csv', 'init'), ('csv-old-stray-norules', 'migrate'), ('csv-old-oddname-twosettings', 'migrate')]
+# the folder-layout migration asked for at a terminal (`tally update` without -y, stdin a pseudo-terminal) and what the user types at its prompt
+TTY_ANSWERS = {'update-tty-y': b'y\n', 'update-tty-enter': b'\n', 'update-tty-yes-upper': b'Y\n', 'update-tty-n': b'n\n', 'update-tty-eof': b'\x04'}
+QUICK += [('csv-old-output', 'update-tty-y'), ('rules-old-symlink-data', 'update-tty-enter'), ('csv-old-output', 'update-tty-n'), ('rules-old-absdata', 'update-tty-eof')]
 OTHER_FS = '/dev/shm'        # a file system other than the one holding the system temp directory (if this machine has one)
 
 
@@ -157,7 +163,36 @@ def cmd_args(cmd, shape, root):
         return ['up', cfg_rel, '--migrate', '-q'] + (['--settings', ALT] if sp.get('altsettings') else [])
     if cmd == 'init':
         return ['init'] if sp['layout'] == 'old' else ['init', 'tally']
+    if cmd in TTY_ANSWERS:
+        return ['update']
     return ['update', '-y']
+
+
+def tally_at_terminal(root, args, answer, env_extra=None, timeout=180):
+    """`tally <args>` with a pseudo-terminal as stdin (sys.stdin.isatty() is true, so the confirmation prompts are shown); `answer` is typed ahead."""
+    env = dict(os.environ, PYTHONPATH=core.SRC, PYTHONDONTWRITEBYTECODE='1', NO_COLOR='1', PYTHONHASHSEED='0')
+    env.pop('TALLY_CONFIG', None)
+    if env_extra:
+        env.update(env_extra)
+    master, slave = pty.openpty()
+    try:
+        os.write(master, answer)
+        p = subprocess.Popen([core.PY, '-m', 'tally'] + list(args), cwd=root, env=env, stdin=slave, stdout=subprocess.PIPE, stderr=subprocess.PIPE, text=True)
+        try:
+            out, err = p.communicate(timeout=timeout)
+        except subprocess.TimeoutExpired:
+            p.kill()
+            out, err = p.communicate()
+        return subprocess.CompletedProcess(p.args, p.returncode, out, err)
+    finally:
+        os.close(slave)
+        os.close(master)
+
+
+def run_cmd(cmd, root, args, env_extra=None):
+    if cmd in TTY_ANSWERS:
+        return tally_at_terminal(root, args, TTY_ANSWERS[cmd], env_extra=env_extra)
+    return B.tally(root, *args, env_extra=env_extra)
 
 
 def contents(root):
@@ -235,13 +270,13 @@ def classification(root, _both=False, extra=()):
     return {'map': m}
 
 
-def run_injected(root, args, at, mode, log):
+def run_injected(root, args, at, mode, log, cmd=None):
     if os.path.exists(log):
         os.unlink(log)
     env = {'VT_INJECT_LOG': log, 'VT_INJECT_ROOT': root, 'PYTHONPATH': os.pathsep.join([INJECT, core.SRC]), 'VT_INJECT_MODE': mode.split(':')[0],
            'VT_INJECT_WATCH_READS': 'merchant_categories.csv',
            'VT_INJECT_AT': str(at), 'VT_INJECT_FRAC': mode.split(':')[1] if ':' in mode else '0.5'}
-    p = B.tally(root, *args, env_extra=env)
+    p = run_cmd(cmd, root, args, env_extra=env)
     eff = [json.loads(l) for l in open(log)] if os.path.exists(log) else []
     return p, eff
 
@@ -271,7 +306,7 @@ def _judge_point(rec, shape, cmd, k, mode, eff_k, baseline, tmp, log, ctx):
     build(root, shape)
     before = contents(root)
     args = cmd_args(cmd, shape, root)
-    p, eff = run_injected(root, args, k, mode, log)
+    p, eff = run_injected(root, args, k, mode, log, cmd)
     rec.case()
     rec.count('injected_runs')
     rec.count('crash_points_visited' if mode.startswith('crash') else 'error_points_visited')
@@ -308,7 +343,7 @@ def _judge_point(rec, shape, cmd, k, mode, eff_k, baseline, tmp, log, ctx):
                 and 'map' in baseline and baseline['map'].get('SOME UNKNOWN VENDOR') == ['Unknown', 'Unknown'] and csv_in_use(cfgd):
             with open(csvp, 'a') as f:
                 f.write('SOME UNKNOWN,Added Later,Added,Cat,\n')
-            B.tally(root, *args)
+            run_cmd(cmd, root, args)
             o3 = classification(root, _both=bool(SHAPES[shape].get('both_settings')))
             want = dict(baseline['map'], **{'SOME UNKNOWN VENDOR': ['Added', 'Cat']})
             ctx['expected'] = {'map': want}
@@ -323,7 +358,7 @@ def _judge_point(rec, shape, cmd, k, mode, eff_k, baseline, tmp, log, ctx):
                       f'{shape}: after {mode} at effect {k} ({eff_k}) tally up classifies every transaction as Unknown; files: {sorted(after)}', case)
         return
     rec.count('reruns')
-    p2 = B.tally(root, *args)
+    p2 = run_cmd(cmd, root, args)
     o2 = classification(root, _both=bool(SHAPES[shape].get('both_settings')))
     if o2 != baseline:
         rec.violation('not-recoverable-by-rerun:%s/%s/%s' % (cmd, step, mode),
@@ -355,7 +390,8 @@ def run(rec, shard, nshards, t):
     xdirs = []
     log = os.path.join(tempfile.gettempdir(), 'vt-c15-%d.log' % os.getpid())
     try:
-        pairs = QUICK if t == 'quick' else [(s, c) for s in SHAPES for c in COMMANDS if c in SHAPES[s].get('only', COMMANDS)] + [(s, c, 'other-filesystem') for s in ('csv-old', 'csv-new', 'csv-old-views')
+        pairs = QUICK if t == 'quick' else [(s, c) for s in SHAPES for c in COMMANDS if c in SHAPES[s].get('only', COMMANDS)] + [
+            (s, c) for s in SHAPES for c in TTY_ANSWERS if 'update' in SHAPES[s].get('only', COMMANDS) and SHAPES[s]['layout'] == 'old'] + [(s, c, 'other-filesystem') for s in ('csv-old', 'csv-new', 'csv-old-views')
                                                                                              for c in ('migrate', 'init')]
         idx = 0
         tmp_home = tmp
@@ -381,8 +417,20 @@ def run(rec, shard, nshards, t):
             shutil.rmtree(root2, ignore_errors=True)
             os.makedirs(root2)
             build(root2, shape)
-            p, effects = run_injected(root2, cmd_args(cmd, shape, root2), 0, 'record', log)
+            before2 = contents(root2) if cmd in TTY_ANSWERS else None
+            p, effects = run_injected(root2, cmd_args(cmd, shape, root2), 0, 'record', log, cmd)
             rec.count('recording_runs')
+            if cmd in TTY_ANSWERS and shard == 0:
+                # the prompt was really shown (otherwise this pair observed the silent non-interactive skip, not the terminal path)
+                if 'Migrate to new layout?' not in (p.stdout or ''):
+                    rec.unsure(f'{shape}/{cmd}: the confirmation prompt of `tally update` was not shown (exit {p.returncode}): {(p.stdout or "")[-200:]!r}')
+                else:
+                    rec.count('terminal_prompts_answered')
+                    declined = cmd in ('update-tty-n', 'update-tty-eof')
+                    rec.count('terminal_migrations_declined' if declined else 'terminal_migrations_confirmed')
+                    if declined and contents(root2) != before2:
+                        rec.violation('declined-migration-changes-the-budget:' + cmd, f'{shape}: the user answered {TTY_ANSWERS[cmd]!r} at the prompt of `tally update`; the tree changed: '
+                                      f'{sorted(set(contents(root2)) ^ set(before2))}', {'kind': 'point', 'shape': shape, 'cmd': cmd, 'k': 0, 'mode': 'record'})
             if shard == 0:
                 rec.count('effects_in_sequences', len(effects))
                 rec.sample({'shape': shape, 'command': cmd, 'effects': ['%d %s %s%s' % (e['n'], e['kind'], e['path'], ' -> ' + e['path2'] if e.get('path2') else '') for e in effects]})
